@@ -39,6 +39,10 @@ claimed = {
    text="Seeded schedule search over concurrent client requests to a goproxytest server on a generated module directory (escaped upper-case paths, /v2, release / pre-release / pseudo / +incompatible / invalid-for-path versions; .txt, .txtar and directory layouts; nested, dot and empty files), every sync.Map / atomic / Mutex operation of the two once-caches and every directory-layout file read being a scheduler decision. Every response (status, .info/.mod bytes, decoded .zip member set, list lines, 404 for absent versions, near-miss spellings and malformed URLs) is compared with a table computed from the generated description alone; all concurrent answers must equal it.",
    note="TCP/HTTP transport is a stub (direct handler delivery); x/tools/txtar.ParseFile is unmodified (module cache cannot be overlaid). No faults (the statement has no failure clause). All-hex commit-hash queries are not generated.",
    tech="deterministic simulation: seeded scheduler over substituted sync/atomic/os and a stub HTTP transport, reference response table"),
+ "C17": dict(cat="exploration", ref="3 (C17)",
+   text="Unmodified testscript code (RunT, script loop, exec, waitOrStop, context and grace computation) runs 1-3 scripts inside a synctest bubble: fake clock, stub child processes whose exit instants are placed around the interrupt and kill instants (+-1ns..30ms) and whose reaction to SIGQUIT is default / ignore / exit after a delay below, around or above the grace period, a recording T with an optional -parallel limit, seeded schedules. Oracle from the stub's signal log and the T: a foreground command still running at the interrupt instant is interrupted then; if it outlives one grace period it is killed exactly then, with interrupt->kill == kill->deadline; the script is reported failed with the timed-out message and no later line runs; subtests that started before the interrupt end by the deadline; no child is left alive or unreaped; scripts that were over before the machinery fired equal their no-deadline twin run (verdict and log).",
+   note="Children and signals are stubs; the grace period is never hard-coded (only relations). Exact ties between exits and timers are not generated. Background processes that ignore interrupts are outside the statement.",
+   tech="deterministic simulation: synctest fake clock + stub processes with seeded exit instants and signal reactions, timing relations read from the signal log"),
 }
 na = {
  "C02": "pure function of the line text and the assignment history: no schedule, clock, fault or second party for a simulator to own",
